@@ -51,7 +51,7 @@ def adjust(t, delta, strengthen=True):
     return t
 
 
-def robust_model(eng, deltas=(1e-2, 1e-5), extra=(), timeout_ms=5000):
+def robust_model(eng, deltas=(1e-2, 1e-5, 1e-10), extra=(), timeout_ms=5000):
     """A model of base + path condition whose real comparisons hold with a margin.
     Returns (model, delta) or (None, None) for tie-only paths / solver give-up."""
     for delta in deltas:
